@@ -3,7 +3,7 @@
    repaired code) and Model/Macro.v (header directives, number_macros).
    Only statements, closed by `exact`, each followed by Print Assumptions. *)
 From Coq Require Import ZArith String List Bool Ascii.
-From JMCV Require Import Base.Dec Model.Layout Model.Macro Proofs.LayoutBasic Proofs.LayoutAdj Proofs.LayoutAdj2 Proofs.MacroFacts.
+From JMCV Require Import Base.Dec Model.Layout Model.Macro Model.MacroSubst Proofs.LayoutBasic Proofs.LayoutAdj Proofs.LayoutAdj2 Proofs.MacroFacts Proofs.MacroSubst.
 Import ListNotations.
 Open Scope Z_scope.
 
@@ -90,6 +90,79 @@ Theorem C16_order_pinned_refuted :
   exists a b, o_order a = o_order b /\ o_left a = true /\ custom_lt_pinned a b = false /\ custom_lt a b = true.
 Proof. exact custom_lt_pinned_synthetic_refuted. Qed.
 Print Assumptions C16_order_pinned_refuted.
+
+(* ---------------------------------------------------------------- strengthening round 1
+   Parameterised `#define KEY(p1, .., pn) body` (Model/MacroSubst.v: param_expand = the template + factory of
+   header_parse.__create_macro_factory at the level of (token type, text); tied to the real tokenizer's output for
+   `KEY(args)` on every run).  For ALL parameter lists, argument lists and bodies:                                  *)
+
+(* a body token that is not a KEYWORD - a string literal of either quote kind whose text equals / contains a
+   parameter name, a bracket (selector arguments, NBT, JSON) mentioning it, an operator - is copied unchanged *)
+Theorem C16_param_non_keyword_left_alone :
+  forall params args body i t,
+    nth_error body i = Some t -> fst t <> KEYWORD ->
+    nth_error (param_expand params args body) i = Some t.
+Proof. exact param_non_keyword_alone. Qed.
+Print Assumptions C16_param_non_keyword_left_alone.
+
+(* a KEYWORD whose text is not EQUAL to a parameter (a longer word of which a parameter is a prefix, suffix or
+   infix, a dotted or `$`-prefixed form, another letter case) is copied unchanged *)
+Theorem C16_param_other_word_left_alone :
+  forall params args body i t,
+    nth_error body i = Some t -> ~ In (snd t) params ->
+    nth_error (param_expand params args body) i = Some t.
+Proof. exact param_other_word_alone. Qed.
+Print Assumptions C16_param_other_word_left_alone.
+
+(* a slot receives the argument of the first parameter of that name, as it is: the substitution is simultaneous
+   (an argument whose text is another parameter's name is not substituted again), token by token, length kept *)
+Theorem C16_param_slot_simultaneous :
+  forall params args body,
+    List.length (param_expand params args body) = List.length body /\
+    forall i s k a,
+      nth_error body i = Some (KEYWORD, s) -> index_of s params 0%nat = Some k -> nth_error args k = Some a ->
+      nth_error (param_expand params args body) i = Some a.
+Proof. intros. split; [apply param_expand_length|apply param_slot]. Qed.
+Print Assumptions C16_param_slot_simultaneous.
+
+(* Hardcode.calc (Model/MacroSubst.v: calc_subst = the str.replace loop of command/utils.py:hardcode_parse_calc over
+   Header.number_macros sorted by name length, longest first; tied to the real function on every run).
+   For EVERY set of integer macros - distinct, non-empty names free of the characters + - * / \ % ( ) blank tab
+   newline and not purely numeric, numeric values - and EVERY expression whose words are numbers or names of the
+   set: the result is the whole-word hand expansion.  A shorter name inside a longer one (prefix, suffix, infix,
+   `Lvl.HIGH` vs `HIGH`) is never captured. *)
+Theorem C16_calc_longest_first_is_hand_expansion :
+  forall nm e,
+    keys_ok nm -> Forall (known_word nm) (words_of (split_words e)) ->
+    calc_subst nm e = hand_calc nm e.
+Proof. exact calc_longest_first. Qed.
+Print Assumptions C16_calc_longest_first_is_hand_expansion.
+
+(* the ORDER is what makes it so: with descending alphabetical order (the sort without its length key) `AB` in
+   `7*AB+A` is rewritten through `B` - refuted by a witness on which the longest-first order is right *)
+Theorem C16_calc_other_order_refuted :
+  exists nm e, keys_ok nm /\ Forall (known_word nm) (words_of (split_words e)) /\
+               subst_in_order (sort_alpha_desc nm) e <> hand_calc nm e /\ calc_subst nm e = hand_calc nm e.
+Proof. exact calc_alphabetical_refuted. Qed.
+Print Assumptions C16_calc_other_order_refuted.
+
+(* PARTIAL: the hypothesis on the words cannot be dropped.  `#define AB 1`, `#define C 2`, Hardcode.calc(ABC):
+   the unknown word ABC is rewritten to 12 and accepted, while its hand expansion (ABC, left alone) is rejected. *)
+Theorem C16_calc_unknown_word_refuted :
+  exists nm e, keys_ok nm /\ calc_text nm e = Some (s2l "12") /\ hand_calc nm e = e.
+Proof. exact calc_unknown_word_refuted. Qed.
+Print Assumptions C16_calc_unknown_word_refuted.
+
+Example C16_param_nonvacuous :
+  param_expand [s2l "name"] [(KEYWORD, s2l "kills")]
+    [(KEYWORD, s2l "add"); (KEYWORD, s2l "name"); (KEYWORD, s2l "names"); (STRING, s2l "name")] =
+  [(KEYWORD, s2l "add"); (KEYWORD, s2l "kills"); (KEYWORD, s2l "names"); (STRING, s2l "name")].
+Proof. vm_compute. reflexivity. Qed.
+
+Example C16_calc_nonvacuous :
+  calc_text [(s2l "SIZE", s2l "4"); (s2l "GRID_SIZE", s2l "16"); (s2l "Lvl.SIZE", s2l "7")] (s2l "(3*GRID_SIZE+SIZE - Lvl.SIZE)")
+  = Some (s2l "(3*16+4 - 7)").
+Proof. vm_compute. reflexivity. Qed.
 
 (* Non-vacuity: a two-token macro body used glued to a bracket and, two spaces later, not glued. *)
 Example C16_nonvacuous :
